@@ -137,6 +137,9 @@ func sizeSpellings(r *rng.R, toks []smltext.Tok, base []string) ([]string, int) 
 	copy(out, base)
 	n := 0
 	for i, t := range toks {
+		if t.Class != smltext.Bracket {
+			continue // a message name may look like a size declaration ("[1]"); only real size tokens are respelled
+		}
 		m := sizeRe.FindStringSubmatch(strings.ReplaceAll(t.S, " ", ""))
 		if m == nil || (m[1] == "" && m[3] == "") || strings.ContainsAny(t.S, " ") && r.Bool() {
 			continue
@@ -268,6 +271,9 @@ func runC08(c *ctx) {
 			if len(toks) == 0 {
 				return
 			}
+			// letter case is only free where a token keeps its role: a direction moved into an item is a
+			// variable name (case-sensitive), a type name moved into the header is a message name
+			move = "layout"
 			// a mutation can move a token into the other lexer state: a quoted string is only a
 			// string inside an item (in the header "//" starts a comment even between quotes) and a
 			// name holding a quote character would open a string inside an item. Sequences in which
